@@ -119,6 +119,23 @@ def run(P, C, tier):
             ok = bool(OPDATE.search(d)) or mir.has_call(dt, r"date_utils::now$") is not None
             C.ob("R6", "op-date:" + keyf(b, s, "#%d" % n), ok, s["loc"], "decision evaluated at `%s` (must be the date of this operation)" % d)
     rights.history_lookup_rule(P, C, "R6")
+    # ---- R7: every row of the mutation tree is decided
+    C.rule("R7", "every row of a nested mutation is validated: in validate_entity_mutation no path returns Ok without having entered the loop that validates the sub-entities (or the room-mutation validator, which walks its own sub-entities)")
+    b = bodies.get("RoomAuthorisations::validate_entity_mutation")
+    if b is not None:
+        rec, heads = mir.recursion_loops(b)
+        ok7 = False
+        where = b.loc(rec[0]) if rec else b.loc()
+        det7 = "no recursion into the sub-entities"
+        if heads:
+            room_val = [bi for bi, t in b.calls_to(r"RoomAuthorisations::validate_room_mutation$")]
+            oks = set(mir.return_assignments(b)["Ok"])
+            esc = b.reachable(0, avoid_blocks=set(heads) | set(room_val)) & oks
+            ok7 = not esc
+            det7 = "Ok exits reachable without visiting the sub-entities: %s" % (sorted(b.loc(x) for x in esc) or "none")
+            if esc:
+                det7 += " -- a row whose own content is unchanged (`node` is None: an id and no modified field, e.g. a parent named only to reach an already linked child) returns Ok before its sub-entities are validated: the children are written without any rights decision"
+        C.ob("R7", "validate_entity_mutation:sub-entities-always-validated", ok7, where, det7)
     # both rooms: validate_entity_mutation has a decision under the room inequality
     b = bodies.get("RoomAuthorisations::validate_entity_mutation")
     if b is not None:
